@@ -231,7 +231,10 @@ impl<M: ConvexCellMarker> Iterator for ConvexCellDecomposition<'_, M> {
     }
 }
 
-pub(crate) trait ConvexCellMarker: Clone + Send + Sync + Default {}
+/// Marker for the two states of a [`ConvexCell`] (with or without stored face information).
+///
+/// Public so that the signatures of the integral traits can be written outside of this crate.
+pub trait ConvexCellMarker: Clone + Send + Sync + Default {}
 
 #[derive(Copy, Clone, Default)]
 pub struct WithoutFaces;
